@@ -125,22 +125,24 @@ def _one(c, U, jax, jnp, log_density):
             ds.append(jnp.asarray(d2))
             rs.append(jnp.asarray(r2))
         variants.append(np.asarray(ld(ds, rs)))
-    # rms = 0 at masked pixels (a finite value; weight maps often hold it where there is no data)
-    rz = []
-    for r, g in zip(rms0, good):
-        r2 = r.copy()
-        r2[~g] = 0.0
-        rz.append(jnp.asarray(r2))
-    base_rz = np.asarray(ld(d_in, rz))
-    gdz, grz = jax.grad(ld, argnums=(0, 1))(d_in, rz)
-    # gradient w.r.t. the latent parameters must stay finite as well
+    # rms = 0 or a tiny positive number at masked pixels (finite values; weight maps often hold them where there is no data)
     def ldp(p):
         return log_density(build(), (), {}, p)[0]
-    for f, d, r in zip(inner, data0, rz):
-        f.data, f.rms = jnp.asarray(d), r
-    gp = jax.grad(ldp)(params)
-    gp_finite = bool(all(np.all(np.isfinite(np.asarray(x))) for x in gp.values()))
-    rms_zero = dict(base=base_rz, gd=[np.asarray(x) for x in gdz], gr=[np.asarray(x) for x in grz], gp_finite=gp_finite)
+    rms_zero = []
+    for tiny in (0.0, 1e-25):
+        rz = []
+        for r, g in zip(rms0, good):
+            r2 = r.copy()
+            r2[~g] = tiny
+            rz.append(jnp.asarray(r2))
+        base_rz = np.asarray(ld(d_in, rz))
+        gdz, grz = jax.grad(ld, argnums=(0, 1))(d_in, rz)
+        # gradient w.r.t. the latent parameters must stay finite as well
+        for f, d, r in zip(inner, data0, rz):
+            f.data, f.rms = jnp.asarray(d), r
+        gp = jax.grad(ldp)(params)
+        gp_finite = bool(all(np.all(np.isfinite(np.asarray(x))) for x in gp.values()))
+        rms_zero.append(dict(value=tiny, base=base_rz, gd=[np.asarray(x) for x in gdz], gr=[np.asarray(x) for x in grz], gp_finite=gp_finite))
     # changing an unmasked pixel must change the density
     changed = []
     for b, g in enumerate(good):
@@ -224,13 +226,13 @@ def oracle_case(c, r):
         if USES_RMS[c["loss"]] and (gr[g] == 0).any():
             out.append(v("grad-rms-unmasked-zero", f"d(log-density)/d(rms) is zero on {int((gr[g] == 0).sum())} unmasked pixels (band {b})"))
     if any_masked:
-        z = r["rms_zero"]
-        if not (z["base"] == r["base"]):
-            out.append(v("rms-zero-density", f"log-density changed from {r['base']!r} to {z['base']!r} with rms = 0 at masked pixels"))
-        bad = any((~np.isfinite(a[~g])).any() or (a[~g] != 0).any() for a, g in zip(z["gd"] + z["gr"], r["good"] + r["good"]))
-        if bad or not z["gp_finite"]:
-            out.append(v("rms-zero-grad", "rms = 0 at masked pixels gives NaN / non-zero derivatives "
-                         f"(d/d(data,rms) at masked pixels clean: {not bad}; gradient w.r.t. the model parameters finite: {z['gp_finite']})"))
+        for z in r["rms_zero"]:
+            if not (z["base"] == r["base"]):
+                out.append(v("rms-zero-density", f"log-density changed from {r['base']!r} to {z['base']!r} with rms = {z['value']:g} at masked pixels"))
+            bad = any((~np.isfinite(a[~g])).any() or (a[~g] != 0).any() for a, g in zip(z["gd"] + z["gr"], r["good"] + r["good"]))
+            if bad or not z["gp_finite"]:
+                out.append(v("rms-zero-grad", f"rms = {z['value']:g} at masked pixels gives NaN / non-zero derivatives "
+                             f"(d/d(data,rms) at masked pixels clean: {not bad}; gradient w.r.t. the model parameters finite: {z['gp_finite']})"))
     if not all(r["changed"]):
         out.append(v("unmasked-ignored", "changing an unmasked pixel left the log-density unchanged"))
     return out
